@@ -74,4 +74,10 @@ CHECKS = {
         "assumptions": ["miscreant (the AEAD library the project uses) is trusted as the reference AES-SIV", "the authenticator's own extension length field and bytes after the ciphertext are neither authenticated nor used: changes there are not required to be rejected"],
         "timeout_quick": 600, "timeout_thorough": 2400,
     },
+    "C03": {
+        "pkg": "c03", "shards": 8,
+        "rule": "rapid state machine driving the real clients against the harness's NTP server model over loopback sockets.",
+        "assumptions": ["the sandbox clock is not stepped during a run (harness instants and kernel timestamps are read from the same CLOCK_REALTIME)", "timing is measured, not controlled: a stall only widens the envelope"],
+        "timeout_quick": 600, "timeout_thorough": 2400,
+    },
 }
